@@ -122,6 +122,31 @@ Definition del_pre (d : db) (i : del_in) : Prop :=
 Definition cop_pre (d : db) (o : cop) : Prop :=
   match o with CAdd i => add_pre d i | CDel i => del_pre d i | CClearTemp _ => True end.
 
+(* ---- the stronger consistency a restarted node relies on (round 6): besides [Consistent],
+   the finalized height is stored and not above the tip, every height in (finalized, tip] still has its revert diff (those
+   blocks can be deleted), and every indexed block that has a payload has its payload stored.  [hb id] = "block id has
+   transactions or assets" (a function of the block, i.e. of its ID). *)
+Record Consistent2 (hb : N -> bool) (d : db) : Prop := mkCons2 {
+  c2_base : Consistent d;
+  c2_fin : exists f t, d KFin = Some f /\ d KTipMark = Some t /\ f <= t;
+  c2_diffs : forall f t h, d KFin = Some f -> d KTipMark = Some t -> f < h -> h <= t -> present d (KDiff h);
+  c2_body : forall h id, d (KIdx h) = Some id -> hb id = true -> present d (KBody id) }.
+
+Definition add_pre2 (hb : N -> bool) (d : db) (i : add_in) : Prop :=
+  add_pre d i /\
+  (a_ok i = true ->
+   a_body i = hb (a_id i) /\ a_fin i <= a_h i /\ (forall f, d KFin = Some f -> f <= a_fin i) /\
+   Forall (fun p => p < a_fin i) (a_prune i)).           (* diffs are pruned strictly below the new finalized height *)
+Definition del_pre2 (d : db) (i : del_in) : Prop :=
+  del_pre d i /\ (d_ok i = true -> forall f, d KFin = Some f -> f < d_h i).   (* deleteBlock's guard *)
+Definition cop_pre2 (hb : N -> bool) (d : db) (o : cop) : Prop :=
+  match o with CAdd i => add_pre2 hb d i | CDel i => del_pre2 d i | CClearTemp _ => True end.
+Fixpoint history_ok2 (hb : N -> bool) (d : db) (ops : list cop) : Prop :=
+  match ops with
+  | [] => True
+  | o :: rest => cop_pre2 hb d o /\ history_ok2 hb (durable_after d (actions_of o)) rest
+  end.
+
 (* a history: every operation is issued in a state satisfying its side condition *)
 Fixpoint history_ok (d : db) (ops : list cop) : Prop :=
   match ops with
